@@ -251,11 +251,17 @@ class Collector:
                 for v in (e.value if e.kind == "mutcall" else (e.value,)):
                     if isinstance(v, tuple) and v and isinstance(v[0], str):
                         self.walk(v, e.cond, e.node)
+        for e in s.effects:
+            if e.kind == "mutcall" and e.key in ("pop", "popitem", "remove"):
+                # list.pop() of an empty list, dict.pop(k) of an absent key, list.remove(x) of an absent element
+                self.add("PARTIALCALL", ("call", ("meth", e.key), (e.target,) + tuple(e.value or ()), ()), e.cond, e.node)
         for c in s.calls:
             for k, (a, p) in enumerate(c.cond):
                 self.walk(a, c.cond[:k], c.node)
             for a in list(c.args) + [v for _, v in c.kwargs]:
                 self.walk(a, c.cond, c.node)
+            if c.fn == ("meth", "index") and len(c.args) >= 2:
+                self.add("PARTIALCALL", ("call", c.fn, tuple(c.args), ()), c.cond, c.node)
             if c.fn[0] == "meth" and c.fn[1] in LOG_METHODS and len(c.args) >= (4 if c.fn[1] == "log" else 3):
                 # logger.warning(msg, *args): logging evaluates `msg % args` when the record is rendered
                 self.add("LOGFORMAT", ("call", c.fn, tuple(c.args), tuple(c.kwargs)), c.cond, c.node)
@@ -332,6 +338,13 @@ class Collector:
                     self.walk(c, inner + tuple((y, True) for y in conds[:i]), node)
                 inner = inner + tuple((c, True) for c in conds) + ((("compvar", bv, it), True),)
             self.walk(t[2], inner, node)
+            return
+        if k == "proj":
+            self.walk(t[1], facts, node)
+            b_ = t[1]
+            if b_[0] == "call" and b_[1][0] == "meth" and b_[1][1] in ("split", "rsplit", "splitlines", "findall", "partition_"):
+                # `a, b = s.split(sep)`: the number of pieces depends on the text (ValueError: not enough / too many values)
+                self.add("PARTIALCALL", ("call", ("meth", "unpack"), (b_,), ()), facts, node)
             return
         if k == "sub":
             self.walk(t[1], facts, node)
@@ -698,6 +711,24 @@ class Discharger:
             t_ = self.static_type(nm, ob)
             if (nm[0] == "const" and isinstance(nm[1], str)) or t_ == ("ext", "builtins.str") or nm[0] == "proj":
                 return "D16 attribute name is a string"
+            return None
+        if ob.kind == "PARTIALCALL":
+            t = ob.term
+            name, recv, rest = t[1][1], t[2][0], t[2][1:]
+            if name == "unpack":
+                return "D7 inside a try whose handler catches the lookup error" if self.try_fact(ob, "builtins.ValueError") else None
+            if name == "pop" and len(rest) == 2:
+                return "D20 pop with a default"
+            exc = {"pop": "builtins.IndexError", "popitem": "builtins.KeyError", "remove": "builtins.ValueError", "index": "builtins.ValueError"}[name]
+            if self.try_fact(ob, exc) or (name == "pop" and self.try_fact(ob, "builtins.KeyError")):
+                return "D7 inside a try whose handler catches the lookup error"
+            rs = strip(recv)
+            for a, p in facts:
+                a = strip(a)
+                if name in ("pop", "popitem") and not rest and a == rs and p:
+                    return "D20 pop from a collection under a dominating non-emptiness fact"
+                if rest and a[0] == "cmp" and a[1] == "in" and a[3] == rs and a[2] == strip(rest[0]) and p:
+                    return "D20 element / key established by a dominating `in` test"
             return None
         if ob.kind == "LOGFORMAT":
             t = ob.term
